@@ -92,6 +92,8 @@ class CFG:
         self.prog = prog
         self.func = func
         self.nodes = []
+        self.bool_locals = _bool_only_locals(prog, func)
+        self.flag_names = set(self.bool_locals) | _const_flags(func)
         self.exit_t = self._new('exit_t', None).id
         self.exit_f = self._new('exit_f', None).id
         self.exit_n = self._new('exit_n', None).id
@@ -124,6 +126,27 @@ class CFG:
     def _stmt(self, st, ctx, nxt):
         if isinstance(st, ast.Expr) and isinstance(st.value, ast.Constant):
             return nxt                      # docstring / bare constant
+        if (isinstance(st, ast.Assign) and len(st.targets) == 1 and
+                isinstance(st.targets[0], ast.Name) and
+                st.targets[0].id in self.bool_locals and
+                not isinstance(st.value, ast.Constant)):
+            # a local that is only ever used as a truth value: branch on the
+            # assigned expression and record which way it went, so that a
+            # later test of the local is path-sensitive
+            name = st.targets[0].id
+            outs = []
+            for val in (True, False):
+                syn = ast.copy_location(ast.Assign(
+                    targets=[ast.Name(id=name, ctx=ast.Store())],
+                    value=ast.Constant(value=val)), st)
+                ast.fix_missing_locations(syn)
+                n = self._new('stmt', syn, ctx)
+                n.exprs = []
+                n.defs = [name]
+                n.tag = 'boolflag'
+                n.succ.append((nxt, None))
+                outs.append(n.id)
+            return self._cond(st.value, ctx, outs[0], outs[1])
         if isinstance(st, (ast.Assign, ast.AugAssign, ast.AnnAssign, ast.Expr,
                            ast.Delete, ast.Pass, ast.Assert)):
             n = self._new('stmt', st, ctx)
@@ -486,3 +509,123 @@ class CFGs:
         for f in self.prog.funcs.values():
             self.get(f)
         return sum(len(c.nodes) for c in self._c.values())
+
+
+def _const_flags(func):
+    """Locals assigned only the constants True/False/None."""
+    vals = {}
+    for n in ast.walk(func.node):
+        if isinstance(n, ast.Assign):
+            for t in n.targets:
+                for nm in ast.walk(t):
+                    if isinstance(nm, ast.Name):
+                        ok = isinstance(t, ast.Name) and isinstance(
+                            n.value, ast.Constant) and (
+                                n.value.value is True or
+                                n.value.value is False or
+                                n.value.value is None)
+                        vals.setdefault(nm.id, []).append(ok)
+        elif isinstance(n, (ast.AugAssign, ast.For, ast.NamedExpr)):
+            for nm in ast.walk(n.target):
+                if isinstance(nm, ast.Name):
+                    vals.setdefault(nm.id, []).append(False)
+        elif isinstance(n, ast.With):
+            for it in n.items:
+                if it.optional_vars is not None:
+                    for nm in ast.walk(it.optional_vars):
+                        if isinstance(nm, ast.Name):
+                            vals.setdefault(nm.id, []).append(False)
+        elif isinstance(n, ast.ExceptHandler) and n.name:
+            vals.setdefault(n.name, []).append(False)
+    params = set(func.all_param_names())
+    return {k for k, v in vals.items() if all(v) and k not in params}
+
+
+def _bool_only_locals(prog, func):
+    """Locals whose every assignment is a boolean-ish expression and whose
+    every use is a truth-value use (a test, an operand of not/and/or inside
+    a test, or the right-hand side of another such local)."""
+    cands = {}
+    bad = set(func.all_param_names())
+    for n in ast.walk(func.node):
+        if isinstance(n, ast.Assign):
+            if len(n.targets) == 1 and isinstance(n.targets[0], ast.Name):
+                v = n.value
+                ok = isinstance(v, (ast.BoolOp, ast.Compare, ast.Call,
+                                    ast.Name)) or (
+                    isinstance(v, ast.UnaryOp) and isinstance(
+                        v.op, ast.Not)) or (
+                    isinstance(v, ast.Constant) and (
+                        v.value is True or v.value is False))
+                cands.setdefault(n.targets[0].id, []).append(ok)
+            else:
+                for t in n.targets:
+                    for nm in ast.walk(t):
+                        if isinstance(nm, ast.Name) and isinstance(
+                                nm.ctx, ast.Store):
+                            bad.add(nm.id)
+        elif isinstance(n, (ast.AugAssign, ast.AnnAssign, ast.For,
+                            ast.NamedExpr)):
+            for nm in ast.walk(n.target):
+                if isinstance(nm, ast.Name):
+                    bad.add(nm.id)
+        elif isinstance(n, ast.With):
+            for it in n.items:
+                if it.optional_vars is not None:
+                    for nm in ast.walk(it.optional_vars):
+                        if isinstance(nm, ast.Name):
+                            bad.add(nm.id)
+        elif isinstance(n, ast.ExceptHandler) and n.name:
+            bad.add(n.name)
+        elif isinstance(n, (ast.ListComp, ast.SetComp, ast.DictComp,
+                            ast.GeneratorExp)):
+            for g in n.generators:
+                for nm in ast.walk(g.target):
+                    if isinstance(nm, ast.Name):
+                        bad.add(nm.id)
+    names = {k for k, v in cands.items() if all(v) and k not in bad}
+    # at least one non-constant assignment (constant-only ones are flags
+    # already) - harmless either way
+    changed = True
+    while changed:
+        changed = False
+        for n in ast.walk(func.node):
+            if isinstance(n, ast.Name) and isinstance(n.ctx, ast.Load) and \
+                    n.id in names:
+                if not _truth_use(prog, n, names):
+                    names.discard(n.id)
+                    changed = True
+        # a bool local assigned from a Name must be assigned from a bool
+        # local
+        for n in ast.walk(func.node):
+            if isinstance(n, ast.Assign) and len(n.targets) == 1 and \
+                    isinstance(n.targets[0], ast.Name) and \
+                    n.targets[0].id in names and isinstance(
+                        n.value, ast.Name) and n.value.id not in names:
+                names.discard(n.targets[0].id)
+                changed = True
+    return names
+
+
+def _truth_use(prog, name_node, names):
+    cur = name_node
+    while True:
+        par = prog.parent(cur)
+        if par is None:
+            return False
+        if isinstance(par, ast.UnaryOp) and isinstance(par.op, ast.Not):
+            cur = par
+            continue
+        if isinstance(par, ast.BoolOp):
+            cur = par
+            continue
+        if isinstance(par, (ast.If, ast.While, ast.IfExp)) and \
+                par.test is cur:
+            return True
+        if isinstance(par, ast.Assert) and par.test is cur:
+            return True
+        if isinstance(par, ast.Assign) and par.value is cur and \
+                len(par.targets) == 1 and isinstance(
+                    par.targets[0], ast.Name) and par.targets[0].id in names:
+            return True
+        return False
